@@ -1,15 +1,72 @@
-//! NOT RUN (tier=dev): none of these finishes within 900 s - see DESIGN.md 4 (handshake).
-//! L3p harnesses on session/handshake.rs (projection): Session::connect / connect_handshake with
-//! the REAL CONNECT encoder, the real framer and the real CONNACK decoder; CONNACK bytes have a
-//! concrete layout (one harness per property set) and symbolic values.
+//! L3p harnesses on session/handshake.rs (projection).  `Session::connect` as a whole does not finish
+//! (every `?`/`match` on a niche-encoded Result is executed on both arms, so the decoder and the whole
+//! CONNACK handling are explored even when the transport fails at once: > 900 s).  It is therefore
+//! checked in two slices, using the two mechanical edits the projection makes in handshake.rs:
+//!   HEAD  connect() up to and including the CONNECT write, ended by the cut point
+//!         (`cut_after_connect`), with the REAL CONNECT encoder;
+//!   TAIL  the handling of the first inbound packet: CONNECT recorded by a write_packet stub, framing
+//!         and decoding replaced by stubs with arbitrary outcomes, CONNACK properties taken from a
+//!         ghost slice (`stub_props_iter`).
 #![allow(static_mut_refs)]
 use super::*;
+use crate::de::verif_x_de::reader_obs;
 use crate::mqtt_client::outbound::verif_x_outbound as g;
 use crate::mqtt_client::outbound::Outbound;
 use crate::mqtt_client::session::drive::verif_p_drive::{self as pd, SymIoP};
-use crate::de::verif_x_de::reader_obs;
 use crate::verif_common as vc;
 use crate::{Buffers, ConfigBuilder, ResourceError};
+
+// @harness props=C12,C01,C05,C14,C09 tier=quick layer=L3p
+// @harness funcs="Session::connect, connect_handshake (head), write_packet, write_all, MqttSerializer::encode(Connect) (projection): real CONNECT encoder"
+// @harness sym="prior reader state and timers (arbitrary leftovers), resume flag, session expiry, write/flush fault" bounds="client id 1 byte, no will/auth, keep-alive 60 s, 12-byte receive buffer, 48-byte arena; whole-buffer writes; function ended at the cut point after the CONNECT write"
+// @harness assumes="K5 (arm_replay); projection cut point"
+#[kani::proof]
+#[kani::unwind(8)]
+#[kani::stub(embassy_time::Instant::now, crate::verif_common::stub_now)]
+#[kani::stub(Outbound::arm_replay, g::st_arm_replay)]
+fn c12_connect_sends_connect_first() {
+    pd::reset_all();
+    let mut rx = [0u8; 12];
+    let mut tx = [0u8; 48];
+    let sei: u32 = kani::any();
+    let mut session = Session::new(ConfigBuilder::new(Buffers::new(&mut rx, &mut tx)).client_id("c").unwrap().keepalive_interval(60).session_expiry_interval(sei));
+    reader_obs::havoc(&mut session.packet_reader);
+    session.runtime.next_ping = if kani::any() { Some(Instant::from_ticks(kani::any())) } else { None };
+    session.runtime.ping_timeout = if kani::any() { Some(Instant::from_ticks(kani::any())) } else { None };
+    session.runtime.session_resumed = kani::any();
+    let sp0: bool = kani::any();
+    session.data.session_present = sp0;
+    unsafe {
+        pd::IO_WHOLE = true;
+        vc::CUT_AFTER_CONNECT = true;
+    }
+    let res = session.connect(SymIoP);
+    assert!(res.is_err(), "harness: the cut point ends the handshake");
+    drop(res);
+    unsafe {
+        vc::CUT_AFTER_CONNECT = false;
+        assert!(g::N_ARM == 1 && g::first(g::E_ARM) < g::first(g::E_IO_WRITE), "C12/C01: replay is not armed before the first byte of the new connection");
+        assert!(g::IO_READS == 0, "C01: CONNECT is written before anything is read");
+        if g::IO_ERRS == 0 {
+            // 10 1b | 00 04 M Q T T 05 flags 00 3c | 0d 27 00 00 00 0c 11 <sei:4> 21 00 08 | 00 01 c
+            assert!(g::IO_ACC_N == 29, "C09: CONNECT length");
+            assert!(g::IO_ACC[0] == 0x10 && g::IO_ACC[1] == 27, "C01: the first bytes on a new transport are a complete CONNECT");
+            assert!(g::IO_ACC[2] == 0 && g::IO_ACC[3] == 4 && g::IO_ACC[4] == b'M' && g::IO_ACC[5] == b'Q' && g::IO_ACC[6] == b'T' && g::IO_ACC[7] == b'T' && g::IO_ACC[8] == 5, "C09: protocol name and level");
+            assert!(g::IO_ACC[9] == if sp0 { 0 } else { 2 }, "C05: clean start is requested exactly until the first successful CONNACK (no will, no auth)");
+            assert!(g::IO_ACC[10] == 0 && g::IO_ACC[11] == 60, "C09: keep-alive");
+            assert!(g::IO_ACC[12] == 13 && g::IO_ACC[13] == 0x27 && g::IO_ACC[14] == 0 && g::IO_ACC[15] == 0 && g::IO_ACC[16] == 0 && g::IO_ACC[17] == 12, "C14: CONNECT advertises the receive-buffer size (12) as Maximum Packet Size");
+            assert!(g::IO_ACC[18] == 0x11 && g::IO_ACC[19] == (sei >> 24) as u8 && g::IO_ACC[20] == (sei >> 16) as u8 && g::IO_ACC[21] == (sei >> 8) as u8 && g::IO_ACC[22] == sei as u8, "C09: session expiry interval");
+            assert!(g::IO_ACC[23] == 0x21, "C09: receive maximum follows");
+            assert!(g::IO_FLUSH_OK == 1 && g::IO_WRITES == 1, "C01: exactly one CONNECT, flushed");
+        }
+        // C12: what an earlier connection left behind is gone before the first byte
+        assert!(reader_obs::read_bytes(&session.packet_reader) == 0 && reader_obs::packet_length(&session.packet_reader).is_none(), "C12: a partial inbound packet of an earlier connection is carried over");
+        assert!(!session.runtime.session_resumed, "C12: transport state of the earlier connection survives");
+        assert!(session.data.session_present == sp0, "C05: writing CONNECT changed the resume flag");
+    }
+    kani::cover!(unsafe { g::IO_ERRS == 0 }, "CONNECT written and flushed");
+    kani::cover!(unsafe { g::IO_ERRS == 1 }, "transport fault while writing CONNECT");
+}
 
 macro_rules! hs_harness {
     ($name:ident, $unwind:literal, $body:block) => {
@@ -18,7 +75,7 @@ macro_rules! hs_harness {
         #[kani::stub(embassy_time::Instant::now, crate::verif_common::stub_now)]
         #[kani::stub(crate::de::PacketReader::received_packet, crate::de::verif_x_de::reader_obs::st_received_packet)]
         #[kani::stub(crate::mqtt_client::outbound::write_packet, g::st_write_packet)]
-        #[kani::stub(core::str::from_utf8, crate::verif_common::stub_from_utf8_unreached)]
+        #[kani::stub(crate::mqtt_client::session::drive::fill_packet_reader, pd::st_fill_packet_reader)]
         #[kani::stub(Outbound::arm_replay, g::st_arm_replay)]
         #[kani::stub(Outbound::clear, g::st_clear)]
         #[kani::stub(Outbound::unresolved_publishes, g::st_unresolved_publishes)]
@@ -27,58 +84,43 @@ macro_rules! hs_harness {
 }
 
 /// variant 0: no properties; 1: ReceiveMaximum(v16); 2: MaximumPacketSize(v32) + ServerKeepAlive(v16);
-/// 3: AssignedClientIdentifier("x") + MaximumQoS(v8).  The decoded packet is handed over by the
-/// `received_packet` stub; the wire bytes only have to frame correctly (5 bytes, length 3).
+/// 3: AssignedClientIdentifier("x") + MaximumQoS(v8)
 fn set_connack(variant: u8, kind: u8, sp: bool, rc: u8, v8: u8, v16: u16, v32: u32) {
     unsafe {
         reader_obs::RP_KIND = kind;
         reader_obs::RP_SP = sp;
         reader_obs::RP_RC = rc;
-        reader_obs::RP_CALLS = 0;
+        reader_obs::RP_NPROPS = 0; // the packet's own (lazy) property block is not used: see stub_props_iter
         match variant {
-            0 => reader_obs::RP_NPROPS = 0,
+            0 => vc::CK_NPROPS = 0,
             1 => {
-                reader_obs::RP_PROPS = [Property::ReceiveMaximum(v16), Property::ReceiveMaximum(1)];
-                reader_obs::RP_NPROPS = 1;
+                vc::CK_PROPS = [Property::ReceiveMaximum(v16), Property::ReceiveMaximum(1)];
+                vc::CK_NPROPS = 1;
             }
             2 => {
-                reader_obs::RP_PROPS = [Property::MaximumPacketSize(v32), Property::ServerKeepAlive(v16)];
-                reader_obs::RP_NPROPS = 2;
+                vc::CK_PROPS = [Property::MaximumPacketSize(v32), Property::ServerKeepAlive(v16)];
+                vc::CK_NPROPS = 2;
             }
             _ => {
-                reader_obs::RP_PROPS = [Property::AssignedClientIdentifier("x"), Property::MaximumQoS(v8)];
-                reader_obs::RP_NPROPS = 2;
+                vc::CK_PROPS = [Property::AssignedClientIdentifier("x"), Property::MaximumQoS(v8)];
+                vc::CK_NPROPS = 2;
             }
         }
-        pd::IN = [0x20, 3, 0, 0, 0, 0, 0, 0, 0, 0, 0, 0];
-        pd::IN_LEN = 5;
     }
 }
 
-fn connect_body(variant: u8) {
+fn connack_body(variant: u8) {
     pd::reset_all();
     let mut rx = [0u8; 12];
     let mut tx = [0u8; 48];
-    let ka: u16 = 60; // concrete: as_secs() divides 64-bit ticks (60 s of solver time); the field is c09_enc_connect_*'s subject
-    let mut session = Session::new(ConfigBuilder::new(Buffers::new(&mut rx, &mut tx)).client_id("c").unwrap().keepalive_interval(ka).session_expiry_interval(kani::any()));
-    // arbitrary leftovers of an earlier connection
-    reader_obs::havoc(&mut session.packet_reader);
-    session.runtime.next_ping = if kani::any() { Some(Instant::from_ticks(kani::any())) } else { None };
-    session.runtime.ping_timeout = if kani::any() { Some(Instant::from_ticks(kani::any())) } else { None };
+    let ka: u16 = 60; // concrete: as_secs() divides 64-bit ticks; the CONNECT field is c09_enc_connect_*'s subject
+    let mut session = Session::new(ConfigBuilder::new(Buffers::new(&mut rx, &mut tx)).client_id("c").unwrap().keepalive_interval(ka));
     session.runtime.send_quota = kani::any();
+    session.runtime.max_send_quota = kani::any();
     let sp0: bool = kani::any();
     session.data.session_present = sp0;
     let gen0 = session.data.generation();
-    unsafe {
-        g::UNRESOLVED = kani::any();
-        kani::assume(g::UNRESOLVED <= 8);
-        pd::IO_HEALTHY = kani::any();
-        pd::IO_WHOLE = true;
-        g::WP_CALLS = 0;
-        g::WP_FAIL = kani::any();
-    }
     let spb: bool = kani::any();
-    let sp: u8 = spb as u8;
     let rc: u8 = kani::any();
     kani::assume(rc == 0 || rc >= 0x80); // defined CONNACK reason codes: success or a failure code
     let v8: u8 = kani::any();
@@ -87,28 +129,35 @@ fn connect_body(variant: u8) {
     let kind: u8 = kani::any();
     kani::assume(kind <= 3);
     set_connack(variant, kind, spb, rc, v8, v16, v32);
-    let healthy = unsafe { pd::IO_HEALTHY };
+    unsafe {
+        g::UNRESOLVED = kani::any();
+        kani::assume(g::UNRESOLVED <= 8);
+        g::WP_CALLS = 0;
+        g::WP_FAIL = kani::any();
+        pd::FILL_OUTCOME = kani::any();
+        kani::assume(pd::FILL_OUTCOME <= 2);
+        pd::FILL_CALLS = 0;
+    }
     let res = session.connect(SymIoP);
     unsafe {
-        // ---- C12 / C05: the CONNECT that was handed to the transport ---------------------------
-        assert!(g::first(g::E_ARM) < g::first(g::E_IO_WRITE), "C12/C01: replay is not armed before the first byte of the new connection");
         assert!(g::WP_CALLS == 1, "C01: exactly one CONNECT per connection");
         assert!(g::WP_CLEAN_START == !sp0, "C05: clean start must be requested exactly until the first successful CONNACK");
         assert!(g::WP_KEEPALIVE == ka, "C09: CONNECT keep-alive");
         assert!(g::WP_CLIENT_ID_LEN == 1 && g::WP_CLIENT_ID0 == b'c', "C05: CONNECT carries the configured client identifier");
+        let got_connack = !g::WP_FAIL && pd::FILL_OUTCOME == 0 && kind == 0;
         match &res {
             Ok(conn) => {
-                assert!(rc == 0 && kind == 0 && !g::WP_FAIL, "C05: connect() succeeded without a successful CONNACK");
-                assert!(conn.live && healthy || conn.live, "C12: the new handle is live");
+                assert!(got_connack && rc == 0, "C05: connect() succeeded without a successful CONNACK");
+                assert!(conn.live, "C12: the new handle is live");
                 let s = &conn.session;
                 assert!(s.data.session_present, "C05: after a successful CONNACK the next CONNECT asks to resume");
-                assert!(!s.packet_reader.packet_available() && reader_obs::read_bytes(&s.packet_reader) == 0, "C12: no partial inbound packet is carried over");
                 assert!(s.runtime.ping_timeout.is_none(), "C10: no PINGREQ is outstanding on a new connection");
                 match s.runtime.keepalive_send_interval() {
-                    None => assert!(s.runtime.next_ping.is_none()),
-                    Some(_) => assert!(s.runtime.next_ping.is_some(), "C10: the ping timer is armed from the CONNACK"),
+                    None => assert!(s.runtime.next_ping.is_none(), "C10: keep-alive 0 (after server override) arms no ping"),
+                    // the clock stub was last read when the timers were restarted
+                    Some(iv) => assert!(s.runtime.next_ping == Some(Instant::from_ticks(vc::NOW) + iv), "C10: the first ping deadline of a connection is CONNACK time + interval of the EFFECTIVE keep-alive (Server Keep Alive if present)"),
                 }
-                if sp == 0 {
+                if !spb {
                     assert!(conn.event == ConnectEvent::Connected, "C05: no session on the broker => Connected");
                     assert!(g::N_CLEAR == 1, "C05: a fresh broker session must discard everything in flight");
                     assert!(s.data.generation() == gen0.wrapping_add(1), "C18: a fresh session invalidates earlier handles (generation + 1)");
@@ -116,8 +165,9 @@ fn connect_body(variant: u8) {
                     assert!(conn.event == ConnectEvent::Reconnected, "C05: session present => Reconnected");
                     assert!(g::N_CLEAR == 0 && s.data.generation() == gen0, "C05: a resumed session keeps in-flight state and handles");
                 }
+                assert!(s.runtime.session_resumed == spb);
                 // C06: counting invariant after CONNACK
-                let unresolved = if sp == 1 { g::UNRESOLVED as u32 } else { 0 };
+                let unresolved = if spb { g::UNRESOLVED as u32 } else { 0 };
                 let rm: u32 = if variant == 1 { v16 as u32 } else { 65_535 };
                 assert!(s.runtime.max_send_quota as u32 == rm.min(8), "C06: the window is min(Receive Maximum, local limit)");
                 if unresolved <= s.runtime.max_send_quota as u32 {
@@ -133,10 +183,8 @@ fn connect_body(variant: u8) {
                     assert!(s.runtime.maximum_packet_size == Some(v32), "C14: the broker's Maximum Packet Size is adopted");
                     assert!(s.runtime.keepalive_interval == embassy_time::Duration::from_secs(v16 as u64), "C10: Server Keep Alive overrides the configured keep-alive");
                 } else {
-                    assert!(s.runtime.keepalive_interval == embassy_time::Duration::from_secs(60), "C10: without Server Keep Alive the configured value stays");
-                }
-                if variant != 2 {
                     assert!(s.runtime.maximum_packet_size.is_none(), "C14: no limit without the property");
+                    assert!(s.runtime.keepalive_interval == embassy_time::Duration::from_secs(60), "C10: without Server Keep Alive the configured value stays");
                 }
                 if variant == 3 {
                     assert!(s.client_id.as_str() == "x", "C05: the broker-assigned client identifier is adopted");
@@ -145,123 +193,50 @@ fn connect_body(variant: u8) {
                     assert!(s.client_id.as_str() == "c" && s.runtime.max_qos.is_none());
                 }
             }
-            Err(e) => {
-                match e {
-                    Error::Peer(PeerError::Rejected(_)) => {
-                        assert!(rc >= 0x80, "C05: Rejected without a failing reason code");
-                    }
-                    Error::Peer(PeerError::InvalidPacket) => {
-                        assert!(kind >= 2 || (variant == 1 && v16 == 0) || (variant == 3 && v8 > 2), "C08: a valid CONNACK was treated as invalid");
-                    }
-                    Error::Transport(_) => assert!(!healthy && g::IO_ERRS >= 1),
-                    Error::WriteZero => assert!(g::WP_FAIL),
-                    Error::Disconnected => assert!(kind == 1 || pd::IN_EOF >= 1, "C11: Disconnected without broker DISCONNECT or end of stream"),
-                    _ => assert!(false, "C12: unexpected connect() error"),
+            Err(e) => match e {
+                Error::Peer(PeerError::Rejected(_)) => assert!(got_connack && rc >= 0x80, "C05: Rejected without a failing CONNACK"),
+                Error::Peer(PeerError::InvalidPacket) => {
+                    assert!(pd::FILL_OUTCOME == 2 || kind >= 2 || (got_connack && ((variant == 1 && v16 == 0) || (variant == 3 && v8 > 2))), "C08: a valid CONNACK was treated as invalid")
                 }
-            }
+                Error::Disconnected => assert!(pd::FILL_OUTCOME == 1 || kind == 1, "C11: Disconnected without broker DISCONNECT or end of stream"),
+                Error::WriteZero => assert!(g::WP_FAIL),
+                _ => assert!(false, "C12: unexpected connect() error"),
+            },
         }
     }
-    // ---- outside the borrow of `res`: session state after a failed handshake --------------------
+    // ---- session state after a failed handshake -------------------------------------------------
     if res.is_err() {
         drop(res);
         unsafe {
-            if rc >= 0x80 || g::N_CLEAR == 0 {
-                // session_present only changes through a processed CONNACK(sp = 0)
-                assert!(session.data.session_present == sp0 || g::N_CLEAR == 1, "C05: a failed handshake changed the resume flag");
-            }
+            let reset_done = g::N_CLEAR == 1;
+            assert!(session.data.session_present == sp0 || reset_done, "C05: a failed handshake changed the resume flag without a processed CONNACK(session present = 0)");
+            assert!(!reset_done || (!g::WP_FAIL && pd::FILL_OUTCOME == 0 && kind == 0 && rc == 0 && !spb), "C05: local state was discarded without a successful CONNACK reporting no session");
+            assert!(reader_obs::read_bytes(&session.packet_reader) == 0 || g::WP_FAIL, "C12: a failed handshake leaves a partial inbound packet behind");
         }
     }
+    kani::cover!(unsafe { g::N_CLEAR == 1 });
 }
 
-// @harness props=C05,C12,C06,C01,C09,C14,C10,C18 tier=dev layer=L3p unwind=10
-// @harness funcs="Session::connect, connect_handshake, fill_packet_reader, Properties::iter, SessionData::reset, RuntimeState::note_outbound_activity (projection); real framer; CONNECT fields recorded by a write_packet stub (encoder: c09_enc_connect_*), CONNACK handed over decoded (decoder: c08_dec_connack_*)"
-// @harness sym="prior reader state, timers, resume flag, session expiry, publishes to replay (0..8), kind of the first inbound packet (CONNACK / DISCONNECT / other / undecodable), CONNACK session-present flag, reason code (0 or >= 0x80), transport faults at every call" bounds="CONNACK without properties (5 bytes); client id 1 byte; no will/auth; keep-alive 60 s; whole-buffer reads/writes (fragmentation: c13_write_all_contract, c15_read_packet_commits_and_latches)"
-// @harness assumes="K5 (arm_replay), clear() as specified by c05_reset_clears_everything; PacketReader::received_packet replaced by a stub returning an arbitrary ConnAck / Disconnect / other packet / decode error"
-hs_harness!(c05_connect_connack_plain, 6, { connect_body(0) });
+// @harness props=C05,C12,C06,C18,C10 tier=quick layer=L3p unwind=6
+// @harness funcs="Session::connect, connect_handshake (tail: first inbound packet, reason code, session-present handling, quota, timers), SessionData::reset, mark_session_present, RuntimeState::note_outbound_activity (projection)"
+// @harness sym="resume flag, prior quota, publishes to replay (0..8), outcome of CONNECT write / framing / decoding, kind of the first inbound packet (CONNACK / DISCONNECT / other / undecodable), session-present flag, reason code (0 or >= 0x80)" bounds="CONNACK without properties; client id 1 byte; keep-alive 60 s"
+// @harness assumes="write_packet, fill_packet_reader, PacketReader::received_packet replaced by stubs with arbitrary outcomes (their subjects: c09_enc_connect_*, c15_read_packet_*, c08_dec_connack_*); CONNACK properties from the ghost slice (projection rule); K5; clear() as c05_reset_clears_everything"
+hs_harness!(c05_connack_plain, 6, { connack_body(0) });
 
-// @harness props=C05,C06,C12 tier=dev layer=L3p unwind=10
-// @harness funcs="as c05_connect_connack_plain"
-// @harness sym="as plain + Receive Maximum value (all u16)" bounds="CONNACK with ReceiveMaximum (8 bytes)"
-// @harness assumes="as c05_connect_connack_plain"
-hs_harness!(c06_connect_connack_receive_maximum, 6, { connect_body(1) });
+// @harness props=C06,C05,C08 tier=quick layer=L3p unwind=6
+// @harness funcs="as c05_connack_plain + Receive Maximum handling"
+// @harness sym="as plain + Receive Maximum value (all u16)" bounds="CONNACK with ReceiveMaximum"
+// @harness assumes="as c05_connack_plain"
+hs_harness!(c06_connack_receive_maximum, 6, { connack_body(1) });
 
-// @harness props=C05,C14,C12 tier=dev layer=L3p unwind=10
-// @harness funcs="as c05_connect_connack_plain"
-// @harness sym="as plain + Maximum Packet Size value (all u32)" bounds="CONNACK with MaximumPacketSize (10 bytes)"
-// @harness assumes="as c05_connect_connack_plain"
-hs_harness!(c14_connect_connack_max_packet_size, 6, { connect_body(2) });
+// @harness props=C14,C10,C05 tier=quick layer=L3p unwind=6
+// @harness funcs="as c05_connack_plain + Maximum Packet Size and Server Keep Alive handling"
+// @harness sym="as plain + Maximum Packet Size (all u32), Server Keep Alive (all u16)" bounds="CONNACK with MaximumPacketSize + ServerKeepAlive"
+// @harness assumes="as c05_connack_plain"
+hs_harness!(c14_connack_max_packet_size_keepalive, 6, { connack_body(2) });
 
-// @harness props=C05,C19,C12 tier=dev layer=L3p unwind=10
-// @harness funcs="as c05_connect_connack_plain"
-// @harness sym="as plain + Maximum QoS value (all u8)" bounds="CONNACK with AssignedClientIdentifier(1 byte) + MaximumQoS (11 bytes)"
-// @harness assumes="as c05_connect_connack_plain"
-hs_harness!(c05_connect_connack_assigned_id, 6, { connect_body(3) });
-
-// @harness props=C12,C01,C05,C14,C09 tier=dev layer=L3p unwind=10
-// @harness funcs="Session::connect, connect_handshake, write_packet, write_all, MqttSerializer::encode(Connect), fill_packet_reader (projection): real CONNECT encoder, transport closes or fails right after CONNECT"
-// @harness sym="prior reader state and timers, resume flag, session expiry, transport fault at every call, end of stream vs. error" bounds="client id 1 byte, no will/auth, keep-alive 60 s, 12-byte receive buffer, 48-byte arena; whole-buffer writes"
-// @harness assumes="K5 (arm_replay)"
-#[kani::proof]
-#[kani::unwind(10)]
-#[kani::stub(embassy_time::Instant::now, crate::verif_common::stub_now)]
-#[kani::stub(Outbound::arm_replay, g::st_arm_replay)]
-fn c12_connect_sends_connect_first() {
-    pd::reset_all();
-    let mut rx = [0u8; 12];
-    let mut tx = [0u8; 48];
-    let sei: u32 = kani::any();
-    let mut session = Session::new(ConfigBuilder::new(Buffers::new(&mut rx, &mut tx)).client_id("c").unwrap().keepalive_interval(60).session_expiry_interval(sei));
-    reader_obs::havoc(&mut session.packet_reader);
-    session.runtime.next_ping = if kani::any() { Some(Instant::from_ticks(kani::any())) } else { None };
-    session.runtime.ping_timeout = if kani::any() { Some(Instant::from_ticks(kani::any())) } else { None };
-    let sp0: bool = kani::any();
-    session.data.session_present = sp0;
-    unsafe {
-        pd::IO_WHOLE = true;
-        pd::IN_LEN = 0; // the transport ends (EOF or error) after the CONNECT
-    }
-    let res = session.connect(SymIoP);
-    assert!(res.is_err(), "C12: connect() cannot succeed without a CONNACK");
-    drop(res);
-    unsafe {
-        assert!(g::first(g::E_ARM) < g::first(g::E_IO_WRITE), "C12/C01: replay is not armed before the first byte of the new connection");
-        assert!(g::first(g::E_IO_READ) == usize::MAX || g::first(g::E_IO_WRITE) < g::first(g::E_IO_READ), "C01: CONNECT is written before anything is read");
-        if g::IO_ERRS == 0 {
-            // 10 18 00 04 M Q T T 05 flags 00 3c 0d 27 00 00 00 0c 11 <sei:4> 21 00 08 00 01 c
-            assert!(g::IO_ACC_N == 26, "C09: CONNECT length");
-            assert!(g::IO_ACC[0] == 0x10 && g::IO_ACC[1] == 24, "C01: the first bytes on a new transport are a complete CONNECT");
-            assert!(g::IO_ACC[2] == 0 && g::IO_ACC[3] == 4 && g::IO_ACC[4] == b'M' && g::IO_ACC[5] == b'Q' && g::IO_ACC[6] == b'T' && g::IO_ACC[7] == b'T' && g::IO_ACC[8] == 5, "C09: protocol name and level");
-            assert!(g::IO_ACC[9] == if sp0 { 0 } else { 2 }, "C05: clean start exactly until the first successful CONNACK; no will, no auth");
-            assert!(g::IO_ACC[10] == 0 && g::IO_ACC[11] == 60, "C09: keep-alive");
-            assert!(g::IO_ACC[12] == 13 && g::IO_ACC[13] == 0x27 && g::IO_ACC[14] == 0 && g::IO_ACC[15] == 0 && g::IO_ACC[16] == 0 && g::IO_ACC[17] == 12, "C14: CONNECT advertises the receive-buffer size (12) as Maximum Packet Size");
-            assert!(g::IO_ACC[18] == 0x11 && g::IO_ACC[19] == (sei >> 24) as u8 && g::IO_ACC[22] == sei as u8, "C09: session expiry interval");
-            assert!(g::IO_ACC[23] == 0x21, "C09: receive maximum follows");
-            assert!(g::IO_FLUSH_OK == 1, "C01: CONNECT is flushed");
-        }
-        // C12: whatever happened, nothing of the failed attempt survives in the reader or the timers
-        assert!(reader_obs::read_bytes(&session.packet_reader) == 0 && reader_obs::packet_length(&session.packet_reader).is_none(), "C12: a failed handshake leaves a partial inbound packet behind");
-        assert!(session.runtime.next_ping.is_none() && session.runtime.ping_timeout.is_none(), "C12: a failed handshake leaves keep-alive timers armed");
-        assert!(session.data.session_present == sp0, "C05: a failed handshake changed the resume flag");
-    }
-    kani::cover!(unsafe { g::IO_ERRS == 0 && pd::IN_EOF == 1 }, "CONNECT written, then end of stream");
-}
-
-// @harness props=DEV tier=dev layer=L3p
-#[kani::proof]
-#[kani::unwind(6)]
-#[kani::stub(embassy_time::Instant::now, crate::verif_common::stub_now)]
-#[kani::stub(Outbound::arm_replay, g::st_arm_replay)]
-#[kani::stub(crate::mqtt_client::outbound::write_packet, g::st_write_packet)]
-fn dev_connect_min() {
-    pd::reset_all();
-    let mut rx = [0u8; 12];
-    let mut tx = [0u8; 48];
-    let mut session = Session::new(ConfigBuilder::new(Buffers::new(&mut rx, &mut tx)).client_id("c").unwrap().keepalive_interval(60));
-    unsafe {
-        pd::IO_WHOLE = true;
-        pd::IN_LEN = 0;
-        g::WP_FAIL = false;
-    }
-    let res = session.connect(SymIoP);
-    assert!(res.is_err());
-}
+// @harness props=C05,C19 tier=quick layer=L3p unwind=6
+// @harness funcs="as c05_connack_plain + Assigned Client Identifier and Maximum QoS handling"
+// @harness sym="as plain + Maximum QoS value (all u8)" bounds="CONNACK with AssignedClientIdentifier(1 byte) + MaximumQoS"
+// @harness assumes="as c05_connack_plain"
+hs_harness!(c05_connack_assigned_id_max_qos, 6, { connack_body(3) });
